@@ -31,13 +31,29 @@ func NewTofu(registry *template.Registry) *Tofu {
 func (tofu Tofu) Render(wr io.Writer, name string, obj interface{}) error {
 	var m data.Map
 	if obj != nil {
+		var val, err = convert(obj)
+		if err != nil {
+			return err
+		}
 		var ok bool
-		m, ok = data.New(obj).(data.Map)
+		m, ok = val.(data.Map)
 		if !ok {
 			return fmt.Errorf("invalid data type. expected map/struct, got %T", obj)
 		}
 	}
 	return tofu.NewRenderer(name).Execute(wr, m)
+}
+
+// convert converts the given object to Soy data.  data.New panics on values it
+// has no representation for (arrays, channels, funcs, maps with non-string
+// keys): here that is an error of the render, not a panic of the caller.
+func convert(obj interface{}) (val data.Value, err error) {
+	defer func() {
+		if e := recover(); e != nil {
+			val, err = nil, fmt.Errorf("invalid data: %v", e)
+		}
+	}()
+	return data.New(obj), nil
 }
 
 // NewRenderer returns a new instance of a Soy html renderer, given the
